@@ -297,7 +297,9 @@ func mutateReq(r *rand.Rand, rec *recorded) *hostileReq {
 				h.body[0] = byte(r.Intn(256))
 			}
 		case 7:
-			h.header.Set("Content-Type", []string{"application/grpc", "application/json", "application/proto", "application/connect+proto", "application/grpc-web+json", "text/plain", ""}[r.Intn(7)])
+			ct := h.header.Get("Content-Type")
+			h.header.Set("Content-Type", []string{"application/grpc", "application/json", "application/proto", "application/connect+proto", "application/grpc-web+json", "text/plain", "",
+				ct + "; charset=utf-8", ct + ";x=y", strings.ToUpper(ct), strings.Replace(ct, "application", "Application", 1), " " + ct, ct + " "}[r.Intn(13)])
 		case 8:
 			h.body = append(h.body, h.body...)
 		}
